@@ -160,7 +160,10 @@ def real_queue(size, blocks, tokens):
     if size is not None:
         p.send_packet_size = size
     infos = [BlockSendInfo(b) for b in blocks]
+    marks = []                                   # bytes the socket had taken when each block was resolved
     for bi in infos:
+        orig = bi.resolve
+        bi.resolve = (lambda r, orig=orig: (marks.append(len(conn._sock.got)), orig(r))[1])
         p._send_queue.put(bi)
     pending = False
     try:
@@ -172,7 +175,7 @@ def real_queue(size, blocks, tokens):
         if bi._result == BlockSendResult.NOT_SENT:
             break
         resolved.append(1 if bi._result == BlockSendResult.SENT_OK else 0)
-    return resolved, bytes(conn._sock.got), p._send_queue.qsize(), len(conn._sock.tokens), pending, infos
+    return resolved, bytes(conn._sock.got), p._send_queue.qsize(), len(conn._sock.tokens), pending, marks
 
 
 def queue_part(res, rng, drv, big):
@@ -187,7 +190,7 @@ def queue_part(res, rng, drv, big):
             toks.append("a" + str(rng.choice([1, 2, 3, size, size + 1, 100])) if k < 9 else ("w" if k == 9 else ("t" if k == 10 else "e")))
         if rng.chance(1, 2):
             toks += ["a100"] * (total + 2)
-        resolved, got, left, rest, pending, infos = real_queue(size, blocks, toks)
+        resolved, got, left, rest, pending, marks = real_queue(size, blocks, toks)
         case = {"kind": "queue", "size": size, "blocks": [b.hex() for b in blocks], "oracle": toks}
         cases.append(case)
         lines.append(f"tcp queue {size} " + ",".join(hexs(b) for b in blocks) + (" " + " ".join(toks) if toks else ""))
@@ -195,15 +198,24 @@ def queue_part(res, rng, drv, big):
         res.count(("queue", size, tuple(blocks), tuple(toks)),
                   sample={"op": "_process_send_queue", "packet_size": size, "block_lens": [len(b) for b in blocks], "oracle": toks[:12]} if i < 2 else None)
         res.bump("queue_resolved", ",".join(map(str, resolved)) or "-")
-        # oracle: the blocks resolved True are in the written stream completely and in order, then a prefix of the next block
-        n_true = sum(1 for r in resolved if r == 1)
-        want_prefix = b"".join(blocks[:n_true])
-        nxt = blocks[n_true] if n_true < len(blocks) else b""
-        if not (got.startswith(want_prefix) and nxt.startswith(got[len(want_prefix):])):
-            res.violate("queue-stream", "written stream is not [blocks resolved True] ++ prefix of the next block", case,
-                        (want_prefix.hex(), nxt.hex()), got.hex())
-        if 0 in resolved[:-1] or (0 in resolved and "e" not in toks):
-            res.violate("queue-resolve", "a block resolved False without a socket error / processing went on after a failure", case, None, resolved)
+        # oracle: every block taken from the queue gets a truthful result of its own: what was written for it is a prefix of it, all of
+        # it if it was resolved True; nothing else is in the stream; unless the socket script ran out every queued block is resolved
+        bounds = [0] + marks + ([len(got)] if pending else [])
+        parts = [got[bounds[k]:bounds[k + 1]] for k in range(len(bounds) - 1)]
+        bad = None
+        if len(marks) != len(resolved) or (not pending and (len(resolved) != len(blocks) or left != 0)):
+            bad = "a queued block was left without a result although the socket script did not run out"
+        elif b"".join(parts) != got:
+            bad = "bytes in the stream that belong to no block"
+        else:
+            for k, part in enumerate(parts):
+                if not blocks[k].startswith(part) or (k < len(resolved) and resolved[k] == 1 and part != blocks[k]):
+                    bad = f"block {k}: written part is not a prefix of the block / resolved True without being written completely"
+                    break
+            if bad is None and any(r == 0 for r in resolved) and "e" not in toks:
+                bad = "a block resolved False without a socket error"
+        if bad:
+            res.violate("queue-stream", bad, case, [b.hex() for b in blocks], {"resolved": resolved, "parts": [x.hex() for x in parts], "left": left})
     hlib.compare_batch(res, drv, "HsmsProtocol._process_send_queue vs Model.TcpSend.processQueue", cases, lines, answers)
 
     # the real packet size: tie of the generated constant, and a block just above it (O only: 2 MB of hex is not sent to the driver)
